@@ -192,8 +192,31 @@ pub fn run(args: &Args, mut out: Out) {
         let (bytes, items) = &all_scripts[si];
         out.ev(sid, "Reset", json!({"script":si,"inq":items}));
         let mut client = std::net::TcpStream::connect(addr).unwrap();
-        client.write_all(bytes).unwrap();
-        client.shutdown(std::net::Shutdown::Write).unwrap();
+        // Closing the write side must not affect reading.  When a sequence closes the write side (shutdown_write, or a
+        // 5xx answer) and reads a body afterwards, the client sends only the head up front and the rest 8 ms later: the
+        // read has to WAIT for the body -- whatever is delivered, the calls' results are those of up-front delivery.
+        let closes = |o: &Op| matches!(o, Op::ShutdownWrite) || matches!(o, Op::WriteResponse(_, c, _) if *c >= 500);
+        let reads = |o: &Op| matches!(o, Op::ReadBodyToVec | Op::ReadBodyToFile(_));
+        let head_end = bytes.windows(4).position(|w| w == b"\r\n\r\n").map(|p| p + 4);
+        let late = match head_end {
+            Some(h) if h < bytes.len() => seq.iter().position(closes).map_or(false, |i| seq[i + 1..].iter().any(reads)),
+            _ => false,
+        };
+        let mut late_sender = None;
+        if late {
+            let h = head_end.unwrap();
+            client.write_all(&bytes[..h]).unwrap();
+            let mut c2 = client.try_clone().unwrap();
+            let rest = bytes[h..].to_vec();
+            late_sender = Some(std::thread::spawn(move || {
+                std::thread::sleep(std::time::Duration::from_millis(8));
+                let _ = c2.write_all(&rest);
+                let _ = c2.shutdown(std::net::Shutdown::Write);
+            }));
+        } else {
+            client.write_all(bytes).unwrap();
+            client.shutdown(std::net::Shutdown::Write).unwrap();
+        }
         let (s, peer) = listener.accept().unwrap();
         let mut conn = HttpConn::new(peer, async_net::TcpStream::try_from(s).unwrap());
         for op in &seq {
@@ -238,6 +261,9 @@ pub fn run(args: &Args, mut out: Out) {
             m.insert("rs".into(), rs_json(&conn.read_state));
             m.insert("ws".into(), json!(ws_str(&conn.write_state)));
             out.ev(sid, "Call", ev);
+        }
+        if let Some(h) = late_sender {
+            let _ = h.join();
         }
         drop(conn);
         let mut got = Vec::new();
